@@ -710,7 +710,14 @@ impl<'a> TypeHumanizer<'a> {
                     self.write_type(field.1, w)?;
                 }
                 LuaMemberKey::Name(s) => {
-                    w.write_str(s)?;
+                    if is_identifier_key(s) {
+                        w.write_str(s)?;
+                    } else {
+                        // not an identifier: use the `["..."]` key syntax the annotation parser reads
+                        w.write_str("[\"")?;
+                        write_hover_escape_string(s, w)?;
+                        w.write_str("\"]")?;
+                    }
                     w.write_str(": ")?;
                     self.write_type(field.1, w)?;
                 }
@@ -1219,6 +1226,15 @@ impl<'a> TypeHumanizer<'a> {
 }
 
 // ─── Free helper functions ──────────────────────────────────────────────────
+
+fn is_identifier_key(s: &str) -> bool {
+    let mut chars = s.chars();
+    match chars.next() {
+        Some(c) if c.is_alphabetic() || c == '_' => {}
+        _ => return false,
+    }
+    chars.all(|c| c.is_alphanumeric() || c == '_')
+}
 
 /// Write an escaped version of `s` directly into `w`.
 fn write_hover_escape_string<W: Write>(s: &str, w: &mut W) -> fmt::Result {
